@@ -186,8 +186,13 @@ def r6_pong(ctx):
         r.check(ok, 'pong|ctor', pg.file, 'Ping::pong(payload) = Ping { ack: true, payload }: %s' % (core.show(agg[0]) if agg else None))
 
 
-def r7_no_loss(ctx):
-    r = ctx.rule('C14.R7', 'PAIR', 'an owed acknowledgement is never dropped: its slot is emptied only on paths that buffered the reply')
+ACK_SLOTS = ((SET, 'remote', SET + '::poll_send', 'frame::settings::Settings::ack'),
+             ('proto::ping_pong::PingPong', 'pending_pong', 'proto::ping_pong::PingPong::send_pending_pong', 'frame::ping::Ping::pong'))
+REFUSAL_SLOT = ((P + 'recv::Recv', 'refused', P + 'recv::Recv::send_pending_refusal', 'frame::reset::Reset::new'),)
+
+
+def r7_no_loss(ctx, rid='C14.R7', table=None, floor=6):
+    r = ctx.rule(rid, 'PAIR', 'an owed reply is never dropped: its slot is emptied only on paths that buffered the reply')
     F = ctx.facts
     from .. import slots
 
@@ -196,9 +201,7 @@ def r7_no_loss(ctx):
             return t['fn'] == BUFFER and core.contains_call(fn.expr_of_op(t['a'][1]), name)
         return pred
     n = 0
-    for owner, field, drain, ack in (
-            (SET, 'remote', SET + '::poll_send', 'frame::settings::Settings::ack'),
-            ('proto::ping_pong::PingPong', 'pending_pong', 'proto::ping_pong::PingPong::send_pending_pong', 'frame::ping::Ping::pong')):
+    for owner, field, drain, ack in (table or ACK_SLOTS):
         f = r.fn(drain)
         if not f:
             continue
@@ -219,7 +222,7 @@ def r7_no_loss(ctx):
                     '%s exit %s: slot %s, reply %s' % (drain.split('::')[-1], rc, {'N': 'emptied', 'S': 'kept', '?': 'unchanged'}[val], 'still owed — the received frame is forgotten and never acknowledged' if lost else ('still owed (slot kept)' if owed else 'buffered or nothing owed')),
                     witness=core.compress_path(f, [x['bb'] for x in core.witness_path(f, parent, bi, st)]))
         r.check(owed_seen, 'no-loss|%s|back-pressure-exit' % field, f.file, '%s has an exit that keeps the slot while the codec is not ready' % drain.split('::')[-1])
-    r.floor(n, 6, 'drain exits examined')
+    r.floor(n, floor, 'drain exits examined')
 
 
 def run(ctx):
